@@ -402,7 +402,7 @@ func c14B1t8(c *Ctx) {
 		}
 		if matches("load(global<repo/pkg/encoding/b1t8.ErrInvalidLength>)", db.Of(e.Results[1], e.Instr)) {
 			for _, l := range rangeLoops(db) {
-				if mustPass(dec, e.Instr.Block(), []ana.Edge{{From: l.Header, To: l.Exit}}) && (forAll(db, l, "bin<<=>(conv<*>(load(iaddr(_, bin<+>(ind<+1>(-1), 1)))), 1)") ||
+				if exitMustPass(dec, e, []ana.Edge{{From: l.Header, To: l.Exit}}) && (forAll(db, l, "bin<<=>(conv<*>(load(iaddr(_, bin<+>(ind<+1>(-1), 1)))), 1)") ||
 					// the signed spelling: 0 <= t and t <= 1 as two tests
 					forAll(db, l, "bin<<=>(load(iaddr(_, ind<+1>(0))), 1)") && forAll(db, l, "bin<>=>(load(iaddr(_, ind<+1>(0))), 0)")) {
 					okOrder = true
